@@ -404,3 +404,55 @@ M.contract(P_FL + ':_Ddv.__init__',
                                   and forall_range(0, len(files), lambda k:
                                  self._validator.validators[k] is files[k]._validator))))},
            inline=True, raises_only=())
+
+
+# ============================================================================== the directory maker: sdv -> ddv -> adv -> maker
+# The modification (= / +=) and the nested FILE-LIST reach DirFileMaker (whose behaviour is proved in C15_dirtrees.py)
+# unchanged.
+
+from exactly_lib.impls.types.files_source.defs import ModificationType as _Mod
+from contracts.C15_dirtrees import FilesSourceI
+
+P_DIRM = 'exactly_lib.impls.types.files_source.impl.file_makers.dir_'
+
+
+class FilesSourceAdvI(Interface):
+    methods = {'primitive': Method(returns=Iface(FilesSourceI), pure=True)}
+
+
+class FilesSourceDdvI(Interface):
+    attrs = {'describer': Any_, 'validator': Any_}
+    methods = {'value_of_any_dependency': Method(returns=Iface(FilesSourceAdvI), pure=True)}
+
+
+class FilesSourceSdvI(Interface):
+    attrs = {'references': Any_}
+    methods = {'resolve': Method(returns=Iface(FilesSourceDdvI), pure=True)}
+
+
+def _opt_call(x, method, arg):
+    return None if x is None else getattr(x, method)(arg)
+
+
+M.contract(P_DIRM + ':DirFileMakerSdv.resolve',
+           params=dict(self=Inst(dir_maker.DirFileMakerSdv, _modification=EnumOf(_Mod),
+                                 _contents=Opt(Iface(FilesSourceSdvI))), symbols=Any_),
+           ensures={'same modification, the resolved contents': lambda self, symbols, result:
+           isinstance(result, dir_maker.DirFileMakerDdv) and result._modification is self._modification
+           and result._contents is _opt_call(self._contents, 'resolve', symbols)}, raises_only=())
+
+M.contract(P_DIRM + ':DirFileMakerDdv.value_of_any_dependency',
+           params=dict(self=Inst(dir_maker.DirFileMakerDdv, _modification=EnumOf(_Mod),
+                                 _contents=Opt(Iface(FilesSourceDdvI)), _contents_describer=Any_), tcds=Any_),
+           ensures={'same modification, the contents of the directory structure': lambda self, tcds, result:
+           isinstance(result, dir_maker.DirFileMakerAdv) and result._modification is self._modification
+           and result._contents is _opt_call(self._contents, 'value_of_any_dependency', tcds)}, raises_only=())
+
+M.contract(P_DIRM + ':DirFileMakerAdv.primitive',
+           params=dict(self=Inst(dir_maker.DirFileMakerAdv, _modification=EnumOf(_Mod),
+                                 _contents=Opt(Iface(FilesSourceAdvI))), environment=Any_),
+           ensures={'the directory maker with the same modification and the primitive contents':
+                        lambda self, environment, result:
+                        isinstance(result, dir_maker.DirFileMaker) and result._modification is self._modification
+                        and result._contents is _opt_call(self._contents, 'primitive', environment)},
+           raises_only=())
